@@ -169,6 +169,88 @@ Proof.
   - unfold fuel_of. pose proof (chain_length _ _ _ C ND). lia.
 Qed.
 
+(** * every file: the shape of what the loop returns
+    Following /Prev from startxref there is a duplicate-free path [ch] that ends
+    (a) at a section without /Prev, or (b) at a /Prev pointing back into the path (cycle) — in both
+    cases the loop returns exactly the sections of [ch], newest first, each once — or
+    (c) at an offset where nothing parses — then the loop returns Err. *)
+Lemma chain_is_path m : forall ch cur, chain_from m cur ch <-> path_from m cur ch None.
+Proof.
+  induction ch as [|[o r] older IH]; intros cur; cbn; [tauto|].
+  rewrite IH. tauto.
+Qed.
+
+Lemma walk_shape m : forall fuel visited cur,
+  walk m fuel visited cur <> WFuel ->
+  exists ch stop,
+    path_from m cur ch stop /\ NoDup (map fst ch) /\ (forall o, In o (map fst ch) -> ~ In o visited) /\
+    match stop with
+    | None => walk m fuel visited cur = WOk (map (fun p => s_sec (snd p)) ch)
+    | Some b =>
+        ((In b visited \/ In b (map fst ch)) /\ walk m fuel visited cur = WOk (map (fun p => s_sec (snd p)) ch))
+        \/ (mfind b m = None /\ walk m fuel visited cur = WErr)
+    end.
+Proof.
+  induction fuel as [|k IH]; intros visited cur NF.
+  - destruct cur as [off|]; [cbn in NF; contradiction|].
+    exists [], None. cbn. repeat split; [constructor|intros o []].
+  - destruct cur as [off|].
+    2:{ exists [], None. cbn. repeat split; [constructor|intros o []]. }
+    cbn [walk] in *. destruct (existsb (N.eqb off) visited) eqn:E.
+    + exists [], (Some off). cbn. repeat split; [constructor|intros o []|].
+      left. split; [|reflexivity]. left.
+      apply existsb_exists in E. destruct E as [y [I Q]]. apply N.eqb_eq in Q. subst y. exact I.
+    + destruct (mfind off m) as [r|] eqn:M.
+      2:{ exists [], (Some off). cbn. repeat split; [constructor|intros o []|]. right. split; [exact M|reflexivity]. }
+      assert (NF' : walk m k (off :: visited) (s_prev r) <> WFuel)
+        by (intro Q; rewrite Q in NF; contradiction).
+      destruct (IH (off :: visited) (s_prev r) NF') as [ch [stop [P [ND [FR R]]]]].
+      exists ((off, r) :: ch), stop. cbn [path_from map fst snd].
+      split; [split; [reflexivity|split; [exact M|exact P]]|].
+      split.
+      { constructor; [|exact ND]. intro I. apply (FR off I). left. reflexivity. }
+      split.
+      { intros o [<-|I]; [apply existsb_eqb_false; exact E|]. intro V. apply (FR o I). right. exact V. }
+      destruct stop as [b|].
+      * destruct R as [[B R]|[B R]]; rewrite R.
+        -- left. split; [|reflexivity].
+           destruct B as [[<-|B]|B]; [right; left; reflexivity|left; exact B|right; right; exact B].
+        -- right. split; [exact B|reflexivity].
+      * rewrite R. reflexivity.
+Qed.
+
+Theorem walk_shape_lemma : forall f,
+  exists ch stop,
+    path_from (f_at f) (Some (f_start f)) ch stop /\ NoDup (map fst ch) /\
+    match stop with
+    | None => collect_sections f = WOk (map (fun p => s_sec (snd p)) ch)
+    | Some b =>
+        (In b (map fst ch) /\ collect_sections f = WOk (map (fun p => s_sec (snd p)) ch))
+        \/ (mfind b (f_at f) = None /\ collect_sections f = WErr)
+    end.
+Proof.
+  intro f. destruct (chain_terminates_lemma f) as [NF _].
+  destruct (walk_shape _ _ _ _ NF) as [ch [stop [P [ND [_ R]]]]].
+  exists ch, stop. split; [exact P|]. split; [exact ND|].
+  destruct stop as [b|]; [|exact R].
+  destruct R as [[[[]|B] R]|R]; [left; split; assumption|right; exact R].
+Qed.
+
+(** whatever was collected, the newest collected section that mentions n wins (any file) *)
+Theorem any_file_newest_collected_wins_lemma : forall f l,
+  collect_sections f = WOk l ->
+  read_xref f = WOk (file_table (rev l)) /\
+  forall n, lookup (file_table (rev l)) n = loc_of (spec_lookup (map rev_of_section (rev l)) n).
+Proof.
+  intros f l H. split; [rewrite read_xref_collect, H; reflexivity|].
+  intro n. apply merge_newest_wins_lemma.
+Qed.
+
+(** a broken /Prev: the whole walk is an error (strict: open fails; other presets: recovery scan) *)
+Example broken_prev_errs :
+  read_xref {| f_at := [(10, {| s_sec := sA; s_prev := Some 777; s_xrefstm := None |})]; f_start := 10 |} = WErr.
+Proof. reflexivity. Qed.
+
 (** * the ISO walk on a well-formed chain *)
 Lemma iso_walk_chain m : forall ch fuel cur,
   chain_from m cur ch -> (length ch <= fuel)%nat ->
